@@ -265,6 +265,7 @@ def r6_names_of_kept_trace(R) -> None:
     names_roots = {x.id for x in ast.walk(names_arg) if isinstance(x, ast.Name)} if names_arg is not None else set()
     ok = False
     shown = []
+    order_lost = []
     for (tid, lab) in f.guards_of(inits[0].id):
         tn = f.cfg.nodes[tid]
         if tn.kind != 'test' or lab != 'T':
@@ -281,7 +282,20 @@ def r6_names_of_kept_trace(R) -> None:
                 has_old = [any(isinstance(x, ast.Attribute) and x.attr == 'names' and not (isinstance(x.value, ast.Name) and x.value.id == 'self') for x in ast.walk(s_)) for s_ in sides]
                 has_new = [bool({x.id for x in ast.walk(s_) if isinstance(x, ast.Name)} & names_roots) or (names_arg is not None and text(s_) in (text(names_arg),)) for s_ in sides]
                 if (has_old[0] and has_new[1]) or (has_old[1] and has_new[0]):
-                    ok = True
+                    # the Trace files values by position: the comparison has to be of the two sequences, in order
+                    lossy = [x for s_ in sides for x in ast.walk(s_) if isinstance(x, ast.Call) and not x.keywords
+                             and (text(x.func).split('.')[-1] in ('set', 'frozenset', 'sorted', 'len', 'Counter'))]
+                    if lossy:
+                        order_lost.append((a, lossy[0]))
+                    else:
+                        ok = True
+    if order_lost and not ok:
+        a, lx = order_lost[0]
+        R.check(False, q, 'kept-trace-names-compared-without-order:' + text(lx.func)[:20], '',
+                f'`{text(a)[:70]}` compares the names through `{text(lx.func)}(...)`, which forgets their order: a Trace files each value under the name at the same '
+                f'position, so after trace=[\'Y\', \'C\'] a solve with trace=[\'C\', \'Y\'] keeps the old Trace and files the values of C under \'Y\'',
+                decided=True, where=f.where(inits[0]))
+        return
     R.check(ok, q, 'kept-trace-has-these-names', 'an existing Trace is kept only if its names are the names being recorded',
             f'the Trace of a period is re-created only under {shown or "?"}: on a second solve with other names (trace=[\'C\', \'Y\'] after trace=[\'Y\', \'C\']) the snapshots are '
             f'appended to the Trace created for the first list, so the values of C are filed under \'Y\' (and lists of different length make the append raise ValueError, '
